@@ -246,7 +246,7 @@ func runC10(c *core.Ctx) {
 		// what the bare condition must select: only nil and false are falsy - a nil pointer is nil, a Drop is its value
 		wantBare := "A"
 		switch u.Name {
-		case "nil", "false", "nilstructptr", "dropnil":
+		case "nil", "false", "nilstructptr", "dropnil", "nildropptr":
 			wantBare = "B"
 		}
 		for _, place := range []string{"v", "h.v", "l[0]", "l.last", "d.v"} {
@@ -272,6 +272,23 @@ func runC10(c *core.Ctx) {
 					c.Violate("logic-universe|"+kindOf(u), "a value is truthy as a bare condition but not as an operand of and/or (or the reverse): the wrong branch is rendered",
 						map[string]any{"value": gen.Describe(uu[ui].Go), "bare": "{% if v %}A{% else %}B{% endif %} => " + base.Brief(), "compound": form + " => " + r1.Brief()})
 				}
+			}
+		}
+	}
+	// --- a condition that cannot be evaluated fails the render in either spelling: unless is if with the condition negated, not
+	// if with the error taken for false
+	if c.Shard == 18%c.NShards && c.Begin("failing conditions") {
+		for _, cond := range []string{"n | divided_by: zero", "(word..n)", "n | nosuchfilter", "n | plus: word", "word | slice: word", "st.Failing", "n | divided_by: zero and tr", "fa or n | modulo: zero"} {
+			b := map[string]any{"n": 7, "zero": 0, "word": "w", "tr": true, "fa": false, "st": gen.MethodStruct{Title: "t"}}
+			rIf := core.Run(e, "{% if "+cond+" %}A{% else %}B{% endif %}", b)
+			rUn := core.Run(e, "{% unless "+cond+" %}B{% else %}A{% endunless %}", b)
+			rEl := core.Run(e, "{% if fa %}X{% elsif "+cond+" %}A{% else %}B{% endif %}", b)
+			c.Eval(3)
+			c.Obs("failing_condition_cases", 1)
+			c.Distinct("failcond", cond)
+			if !rUn.Same(rIf) && !(rUn.Failed() && rIf.Failed()) || !rEl.Same(rIf) && !(rEl.Failed() && rIf.Failed()) || rUn.Panic != "" {
+				c.Violate("if-unless-duality|failing-condition", "{% if c %}A{% else %}B{% endif %} and {% unless c %}B{% else %}A{% endunless %} render identically for every condition - also one whose evaluation fails",
+					map[string]any{"condition": cond, "if": rIf.Brief(), "unless": rUn.Brief(), "elsif": rEl.Brief()})
 			}
 		}
 	}
